@@ -200,11 +200,11 @@ func c16RandSegs(r *rand.Rand, keys []string, tag string, depth int, malformed, 
 		case x == 11 && malformed:
 			segs = append(segs, c16Lit([]string{"${", "${1}", "$", "${A", "}"}[r.Intn(5)]))
 		case depth > 0:
-			n := 4
-			if errs {
-				n = 6
+			op := c16Ops[r.Intn(4)]
+			if errs && r.Intn(12) == 0 {
+				op = c16Ops[4+r.Intn(2)] // `:?` / `?`: the whole file fails when unsatisfied
 			}
-			segs = append(segs, c16OpSeg(keys[r.Intn(len(keys))], c16Ops[r.Intn(n)], c16RandSegs(r, keys, tag, depth-1, false, errs)...))
+			segs = append(segs, c16OpSeg(keys[r.Intn(len(keys))], op, c16RandSegs(r, keys, tag, depth-1, false, errs)...))
 		default:
 			segs = append(segs, c16Lit("z"))
 		}
